@@ -542,6 +542,15 @@ func (c *fctx) assignSpecial(e *emitter, ind int, st *ast.AssignStmt) bool {
 				}
 				c.fail(st, "bytes.Buffer.%s", sn.Obj().Name())
 			}
+			// err := dst.Close(): the destination's last word (an io.WriteCloser that is abstract state)
+			if lt == "δ" && sn.Obj().Name() == "Close" && len(st.Lhs) == 1 && len(call.Args) == 0 {
+				c.useAbstractName("dst_Close", "(dst_Close : δ → Go.M ((Option Go.Err) × δ))")
+				t := c.tmp()
+				e.add(ind, fmt.Sprintf("let %s ← dst_Close %s", t, c.expr(sel.X)))
+				c.assignTo(e, ind, sel.X, t+".2", false)
+				c.assignTo(e, ind, st.Lhs[0], t+".1", define)
+				return true
+			}
 			// _, err := dst.Write(buf): an abstract, stateful destination
 			if lt == "δ" && sn.Obj().Name() == "Write" && len(st.Lhs) == 2 {
 				var data string
